@@ -28,7 +28,8 @@ type vfCC struct {
 	updates    []*types.Block
 	validCalls []*types.Block
 	validBest  []*types.Block
-	failAt     int // IsBlockValid fails at its failAt-th call (0-based); -1 never
+	failAt     int  // IsBlockValid fails at its failAt-th call (0-based); -1 never
+	rejectAll  bool // IsBlockValid fails always
 	saves      int
 	needCalls  int
 }
@@ -46,7 +47,7 @@ func (c *vfCC) IsBlockValid(block *types.Block, bestBlock *types.Block) error {
 	n := len(c.validCalls)
 	c.validCalls = append(c.validCalls, block)
 	c.validBest = append(c.validBest, bestBlock)
-	if n == c.failAt {
+	if n == c.failAt || c.rejectAll {
 		return vfErrInvalidBlock
 	}
 	return nil
